@@ -172,6 +172,7 @@ class RefusalTracer:
         self.cov = cov
         self.stack = []
         self.raw = []
+        self.path_rules = []
         self.refused = {}  # repr(request) -> [validator class names]
 
     def install(self):
@@ -189,9 +190,7 @@ class RefusalTracer:
             if tr.stack and res is False and type(v).__name__ != "_CombinedValidator":
                 # only rules on the path of the request itself: a rule refusing a NESTED request (a terminal command carried as an argument and
                 # executed by the handler) is the handler's business - 'allowed' never meant 'will succeed'
-                outer = tr.raw[0]
-                rest = list(a[0]) if a and isinstance(a[0], (list, tuple)) else None
-                if rest is not None and not (len(rest) <= len(outer) and (not rest or outer[-len(rest):] == rest)):
+                if id(v) not in tr.path_rules[0]:
                     tr.cov.inc("validator_refusals_in_nested_requests_ignored")
                     return
                 tr.refused.setdefault(tr.stack[0], []).append(type(v).__name__)
@@ -201,13 +200,42 @@ class RefusalTracer:
             if "__call__" in c.__dict__:
                 probes.wrap(c, "__call__", post=post_val, tapname=f"validator:{c.__name__}")
 
+        def rules_on_path(root, request):
+            """ids of the permission-rule objects guarding the elements of this request's own path (walk as the dispatcher walks)"""
+            from primaite.simulator.core import RequestManager
+
+            ids, cur, i = set(), root, 0
+
+            def add(v):
+                ids.add(id(v))
+                for c in getattr(v, "validators", []) or []:
+                    add(c)
+
+            while i < len(request):
+                key = request[i]
+                if not isinstance(key, (str, int)) or key not in cur.request_types:
+                    break
+                rt = cur.request_types[key]
+                add(rt.validator)
+                nxt = rt.func if isinstance(rt.func, RequestManager) else None
+                if nxt is None:
+                    owner = getattr(rt.func, "__self__", None)
+                    if owner is not None and getattr(rt.func, "__name__", "") == "apply_request" and isinstance(getattr(owner, "_request_manager", None), RequestManager):
+                        nxt = owner._request_manager
+                if nxt is None:
+                    break
+                cur, i = nxt, i + 1
+            return ids
+
         def pre_apply(sim, request, *a, **k):
             tr.stack.append(repr(list(request)))
             tr.raw.append(list(request))
+            tr.path_rules.append(rules_on_path(sim._request_manager, list(request)))
 
         def post_apply(sim, tok, res, exc, request, *a, **k):
             tr.stack.pop()
             tr.raw.pop()
+            tr.path_rules.pop()
 
         probes.wrap(Simulation, "apply_request", pre=pre_apply, post=post_apply)
 
